@@ -174,6 +174,44 @@ pub fn c09_simple_glyph_total() {
     kani::cover!(r.is_ok(), "three points decoded");
 }
 
+// @bound SimpleGlyph with a concrete frame (1 contour, 2 points, no instructions) and 8 ARBITRARY symbolic data bytes: for flag encodings with REPEAT counts >= 1 (what the writer emits), read_points_fast (the buffer-based decoder used for drawing) equals the spec decoding for point k (symbolic k): flags incl. REPEAT, short / same / long x and y deltas with wrapping accumulation, on-curve bit, coordinates compared modulo 2^16 (read_points_fast accumulates in i32 like FreeType, points() in i16); unwind 5
+// @c20
+// @c01
+// @timeout 700
+#[cfg_attr(kani, kani::proof)]
+#[cfg_attr(kani, kani::unwind(5))]
+pub fn c09_read_points_fast_matches_spec_2_points() {
+    let d: [u8; 8] = kani::any();
+    let bb: [u8; 8] = kani::any();
+    let buf = [
+        0, 1, bb[0], bb[1], bb[2], bb[3], bb[4], bb[5], bb[6], bb[7], 0, 1, 0, 0, d[0], d[1], d[2], d[3], d[4], d[5], d[6], d[7],
+    ];
+    // flag encodings the glyph writer can produce: a REPEAT flag carries a count >= 1 (so the flag
+    // bytes never outnumber the points). read_points_fast reads at most n_points flag bytes and
+    // rejects / misreads the (legal but never written) encodings with a zero repeat count that
+    // points() and FreeType accept -- noted in DESIGN.md as an observation outside the properties
+    kani::assume(if d[0] & 0x08 != 0 { d[1] >= 1 } else { d[1] & 0x08 == 0 });
+    let Ok(g) = SimpleGlyph::read(FontData::new(&buf)) else { return };
+    let mut pts = [Point::<i32>::default(); 2];
+    let mut fl = [PointFlags::default(); 2];
+    let r = g.read_points_fast(&mut pts, &mut fl);
+    let k: usize = kani::any();
+    kani::assume(k < 2);
+    match spec_point(&d, 2, k) {
+        Some((x, y, on)) => {
+            assert!(r.is_ok());
+            // (read_points_fast accumulates in i32 like FreeType, points() wraps in i16: compared modulo 2^16)
+            assert!(pts[k].x as i16 == x && pts[k].y as i16 == y);
+            assert!(fl[k].is_on_curve() == on);
+            kani::cover!(k == 1 && d[0] & 0x08 != 0, "second point through a repeat flag");
+            kani::cover!(k == 1 && d[0] & 0x12 == 0, "long x delta");
+        }
+        // malformed for the spec decoder (out of data, or a repeat run past the last point, which
+        // read_points_fast clamps instead): no agreement required, only totality
+        None => {}
+    }
+}
+
 // @bound SimpleGlyph with a concrete frame (1 contour, 3 points, no instructions) and 3 ARBITRARY symbolic bytes of flag data (no room for coordinate bytes: points can still decode through the same-as-previous flags): read_points_fast never panics (3 points is the smallest glyph in which a repeat count can follow a non-repeated flag); unwind 5
 // @c20
 // @c01
